@@ -277,14 +277,14 @@ def errorIsAccurate (c : FC) (count : Nat) (fp : ExtFloat) : Bool :=
 /-! ## algorithm.rs -/
 
 /-- the three float operations the fast path uses (`as_cast`, `*`, `/`): IEEE-754 correctly rounded
-    operations of `Spec.Ieee` (f64) and `Spec.Ieee32` (f32), on bit patterns -/
+    operations of `Spec.Ieee` (f64; f32 multiplication/division from `Spec/Ieee32.lean`), on bit patterns -/
 def castU64 (single : Bool) (n : Nat) : Nat :=
-  if single then (Spec.Ieee32.F32.ofNat n).toNat else (Spec.Ieee.F64.ofU64 n).toNat
+  if single then (Spec.Ieee.F32.ofU64 n).toNat else (Spec.Ieee.F64.ofU64 n).toNat
 def fmul (single : Bool) (a b : Nat) : Nat :=
-  if single then (Spec.Ieee32.F32.mul (UInt32.ofNat a) (UInt32.ofNat b)).toNat
+  if single then (Spec.Ieee.F32.mul (UInt32.ofNat a) (UInt32.ofNat b)).toNat
   else (Spec.Ieee.F64.mul (UInt64.ofNat a) (UInt64.ofNat b)).toNat
 def fdiv (single : Bool) (a b : Nat) : Nat :=
-  if single then (Spec.Ieee32.F32.div (UInt32.ofNat a) (UInt32.ofNat b)).toNat
+  if single then (Spec.Ieee.F32.div (UInt32.ofNat a) (UInt32.ofNat b)).toNat
   else (Spec.Ieee.F64.div (UInt64.ofNat a) (UInt64.ofNat b)).toNat
 
 /-- `fn pow10(self, n: i32) -> F { if n > 0 { self * F_POW10[n as usize] } else { self / F_POW10[-n as usize] } }`
@@ -633,7 +633,7 @@ deriving Repr, DecidableEq
 def finishFloat (single positive : Bool) (bits : Nat) : NRes :=
   if isInf (fc single) bits then .outOfRange
   else
-    let f : UInt64 := if single then Spec.Ieee32.F32.toF64 (UInt32.ofNat bits) else UInt64.ofNat bits
+    let f : UInt64 := if single then Spec.Ieee.F32.toF64 (UInt32.ofNat bits) else UInt64.ofNat bits
     .f64 (if positive then f else Spec.Ieee.F64.neg f)
 
 /-- the leaves: `f64_from_parts`, `f64_long_from_parts` (both under `float_roundtrip`), `parse_exponent_overflow` -/
@@ -654,7 +654,7 @@ def expDigits : Bytes → Option Nat
   | d :: rest =>
     let rec go (exp : Nat) : Bytes → Option Nat
       | [] => some exp
-      | c :: cs => if overflowMacro exp (dig c) i32Max then none else go (exp * 10 + dig c) cs
+      | c :: cs => if Num.overflowMacro exp (dig c) i32Max then none else go (exp * 10 + dig c) cs
     go (dig d) rest
 
 /-- `parse_exponent` (short significand): on overflow `zero_significand = significand == 0`; otherwise
@@ -706,7 +706,7 @@ def parseDecimalGo (exp : Option (Bool × Bytes)) (sig : Nat) (expAfter : Int) :
     | some (en, eds) => parseExponent sig expAfter en eds
     | none => .concise sig expAfter
   | c :: cs =>
-    if overflowMacro sig (dig c) u64Max then parseDecimalOverflow sig expAfter (c :: cs) exp
+    if Num.overflowMacro sig (dig c) u64Max then parseDecimalOverflow sig expAfter (c :: cs) exp
     else parseDecimalGo exp (sig * 10 + dig c) (expAfter - 1) cs
 
 def parseDecimal (sig : Nat) (fds : Bytes) (exp : Option (Bool × Bytes)) : Call := parseDecimalGo exp sig 0 fds
@@ -725,7 +725,7 @@ def parseLongInteger (partialSig : Nat) (rest : Bytes) (frac : Option Bytes) (ex
     `(significand, some remaining)` when `overflow!(significand * 10 + digit, u64::MAX)` fires -/
 def goInt (sig : Nat) : Bytes → Nat × Option Bytes
   | [] => (sig, none)
-  | c :: cs => if overflowMacro sig (dig c) u64Max then (sig, some (c :: cs)) else goInt (sig * 10 + dig c) cs
+  | c :: cs => if Num.overflowMacro sig (dig c) u64Max then (sig, some (c :: cs)) else goInt (sig * 10 + dig c) cs
 
 /-- `parse_integer` + `parse_number` of the `float_roundtrip` build on a scanned literal: which leaf, which arguments -/
 def deCall (p : Parts) : Call :=
@@ -786,11 +786,11 @@ def convertRoundtripSingle (p : Parts) : NRes :=
 where
   conv (p : Parts) : NRes :=
     match exact p with
-    | .zero => .f64 (Spec.Ieee.signBit p.neg)
-    | .tiny => .f64 (Spec.Ieee.signBit p.neg)
+    | .zero => .f64 (Spec.Ieee.F64.zero p.neg)
+    | .tiny => .f64 (Spec.Ieee.F64.zero p.neg)
     | .huge => .outOfRange
-    | .rat n d => match Spec.Ieee32.roundNE32 p.neg n d with
-      | some b => .f64 (Spec.Ieee32.F32.toF64 b)
+    | .rat n d => match (if d == 0 then none else Spec.Ieee.roundNE32 p.neg n d) with
+      | some b => .f64 (Spec.Ieee.F32.toF64 b)
       | none => .outOfRange
 
 end SJ.Model.Lexical
